@@ -993,12 +993,29 @@ class StateEngine(object):
         """
         has_terminated = any("terminated" in r for r in all_branch_results.values())
 
+        def enclosing_terminated(results):
+            """
+            A Map or Parallel state nested (at any depth) in a branch of one
+            that has failed makes no further progress either: the Tasks and
+            Waits pending in its branches are cancelled like those of the
+            failed state's own branches, whether or not the failure is then
+            retried or caught. Nothing else would cancel them whilst the
+            execution carries on, and their late replies would be handled.
+            """
+            results = all_branch_results.get(results.get("parent"))
+            while results:
+                if results.get("terminated"):
+                    return True
+                results = all_branch_results.get(results.get("parent"))
+            return False
+
         results_pending = False
         # (Iterate over a copy: cancelling a Task runs its callback, which may
         # add the results of a Map or Parallel state not seen since a restart.)
         for results in list(all_branch_results.values()):
             terminated = results.get("terminated")
-            if has_terminated and (terminated or execution_ended):
+            if has_terminated and (terminated or execution_ended or
+                                   enclosing_terminated(results)):
                 result = results["results"]
                 event_ids = results["ids"]
 
@@ -1034,7 +1051,8 @@ class StateEngine(object):
                             results_pending = True
 
         for results in all_branch_results.values():
-            if execution_ended or results.get("terminated"):
+            if (execution_ended or results.get("terminated") or
+                enclosing_terminated(results)):
                 event_ids = results["ids"]
                 #print("Acknowledging event_ids:")
                 #print(event_ids)
@@ -1156,6 +1174,9 @@ class StateEngine(object):
                     "results": [PENDING]*length,
                     "ids": [None]*length,  # Unacknowledged messages
                     "state": [None]*length,
+                    # ID of the Map or Parallel state enclosing this one
+                    "parent": (branch_info_stack[-2].get("ID")
+                               if len(branch_info_stack) > 1 else None),
                 }
 
             # Get the branch results for current execution and current state
@@ -3418,6 +3439,9 @@ class StateEngine(object):
                     "results": [PENDING]*length,
                     "ids": [None]*length,  # Unacknowledged messages
                     "state": [None]*length,
+                    # ID of the Map or Parallel state enclosing this one
+                    "parent": (context_state["Branch"][-2].get("ID")
+                               if len(context_state["Branch"]) > 1 else None),
                 }
 
             """
